@@ -894,7 +894,16 @@ impl LdapConnAsync {
                             4 | 25 => (SearchItem::Entry(protoop), false),
                             5 => (SearchItem::Done(Tag::StructureTag(protoop).into()), true),
                             19 => (SearchItem::Referral(protoop), false),
-                            _ => panic!("unrecognized op id: {}", protoop.id),
+                            _ => {
+                                // Nothing but entries, references, intermediate responses and
+                                // the final result may arrive under the ID of a Search: the
+                                // peer is not speaking LDAP as we know it.
+                                warn!("unexpected op for search, op={}: {}", id, protoop.id);
+                                return Err(LdapError::from(io::Error::new(
+                                    io::ErrorKind::Other,
+                                    format!("unexpected protocolOp {} for search {}", protoop.id, id),
+                                )));
+                            },
                         };
                         #[cfg(ldap3_verif)]
                         {
